@@ -2,6 +2,8 @@
 
 package sarama
 
+import "time"
+
 // C04 P-sys: a reported success identifies exactly where and what was written.
 func verifHarness_C04_sysFaults() {
 	r := vRunProducer(vProdScenario(0))
@@ -41,6 +43,7 @@ func verifHarness_C04_wireContent() {
 		keyNil     bool
 		valNil     bool
 		hdr        bool
+		ts         time.Time
 	}
 	var subs []sub
 	mkPayload := func(name string) (Encoder, []byte, bool) {
@@ -62,6 +65,11 @@ func verifHarness_C04_wireContent() {
 			m.Headers = []RecordHeader{{Key: []byte("h"), Value: vBytes("hval", 1)}}
 			s.hdr = true
 		}
+		// supplied timestamps in any order (a later message may carry an earlier time)
+		if conf.Version.IsAtLeast(V0_10_0_0) && vChoose("timestamp", 2) == 1 {
+			s.ts = time.Unix(int64(1000+3*vChoose("when", 3)), 0)
+			m.Timestamp = s.ts
+		}
 		vAssert(ps.add(m) == nil, "add")
 		subs = append(subs, s)
 	}
@@ -77,8 +85,10 @@ func verifHarness_C04_wireContent() {
 	recs := back.records["t"][0]
 	var keys, vals [][]byte
 	var nHdr []int
+	var stamps []time.Time
 	if recs.RecordBatch != nil {
 		for i, r := range recs.RecordBatch.Records {
+			stamps = append(stamps, recs.RecordBatch.FirstTimestamp.Add(r.TimestampDelta))
 			keys, vals = append(keys, r.Key), append(vals, r.Value)
 			nHdr = append(nHdr, len(r.Headers))
 			vAssert(r.OffsetDelta == int64(i), "offset-deltas-are-indices")
@@ -90,6 +100,7 @@ func verifHarness_C04_wireContent() {
 			for _, inner := range mb.Messages() {
 				keys, vals = append(keys, inner.Msg.Key), append(vals, inner.Msg.Value)
 				nHdr = append(nHdr, 0)
+				stamps = append(stamps, inner.Msg.Timestamp)
 			}
 		}
 	}
@@ -99,6 +110,10 @@ func verifHarness_C04_wireContent() {
 		vAssert(string(keys[i]) == string(subs[i].key) && string(vals[i]) == string(subs[i].val), "payload-bytes-preserved")
 		if subs[i].hdr {
 			vAssert(nHdr[i] == 1, "headers-preserved")
+		}
+		if !subs[i].ts.IsZero() {
+			vAssert(stamps[i].Equal(subs[i].ts), "supplied-timestamp-is-the-one-written")
+			vCover("timestamp-checked", true)
 		}
 	}
 	vReach()
